@@ -14,8 +14,6 @@ structure OpHyp (m : Model) (sg : Subgraph) (op : Op) (k : String) : Prop where
   constWeight : ∀ b a, biasSlot k = some b → op.inputs[1]? = some a → op.inputs[dataSlot k]? = some a →
     a ≠ -1 → isConst m sg a = false
   mandatory : ∀ b, biasSlot k = some b → (∀ i < b, op.inputs[i]? ≠ some (-1)) ∧ op.outputs[0]? ≠ some (-1)
-  passThrough : k ∈ passThroughOps → ∀ (i : Nat) a, op.inputs[i]? = some a → a ≠ -1 → i ∉ indexSlots k →
-    isConst m sg a = false
 
 /-! ## slot roles -/
 
@@ -69,13 +67,13 @@ theorem registry_float : Py.dictGet? Tables.registry Tables.algFloatCasting = so
 theorem minmax_table1 : ∀ e ∈ minmaxOps,
     (e.2 = "materialize_embedding_lookup" → indexSlots e.1 = [0]) ∧
     (e.2 = "materialize_mean" → indexSlots e.1 = [1]) ∧
-    (e.2 = "materialize_reshape" ∨ e.2 = "materialize_transpose" → indexSlots e.1 = [1] ∧ e.1 ∈ passThroughOps) := by
+    (e.2 = "materialize_reshape" ∨ e.2 = "materialize_transpose" → indexSlots e.1 = [1]) := by
   decide
 
 theorem minmax_table2 : ∀ e ∈ minmaxOps,
-    (e.2 = "materialize_average_pool_2d" → indexSlots e.1 = [] ∧ e.1 ∈ passThroughOps) ∧
-    (e.2 = "materialize_strided_slice" → indexSlots e.1 = [1, 2, 3] ∧ e.1 ∈ passThroughOps) ∧
-    (e.2 = "materialize_split" → indexSlots e.1 = [0] ∧ e.1 ∈ passThroughOps) := by
+    (e.2 = "materialize_average_pool_2d" → indexSlots e.1 = []) ∧
+    (e.2 = "materialize_strided_slice" → indexSlots e.1 = [1, 2, 3]) ∧
+    (e.2 = "materialize_split" → indexSlots e.1 = [0]) := by
   decide
 
 theorem minmax_table3 : ∀ e ∈ minmaxOps,
@@ -183,56 +181,53 @@ theorem materializeOp_reqs (env : Env) (sg : Subgraph) (qsvs : Qsvs) (oi : OpInf
       have T3 := minmax_table3 _ hmem
       -- `standardOp` with the given positions = the index slots of the operator
       have std : ∀ (con : Constraint) (gIn : List Nat) r q, indexSlots oi.opName = gIn →
-          (con = .sameAsInput → oi.opName ∈ passThroughOps) →
           standardOp env sg qsvs oi con gIn [] = .ok (r, q) → OpReqs env.model sg oi.op oi.opId r := by
-        intro con gIn r q hidx hpt hs
-        refine (standardOp_opReqs env sg qsvs oi con gIn [] r q hnames hin hout hnb houtNC ?_ ?_ hs).1
-        · intro hc i a h1 h2 h3
-          exact hop.passThrough (hpt hc) i a h1 h2 (by rw [hidx]; exact h3)
-        · intro i j a h1 h2 h3
-          have := role_index _ i j (hop.roles i j a h1 h2 h3)
-          rw [hidx] at this
-          exact this
+        intro con gIn r q hidx hs
+        refine (standardOp_opReqs env sg qsvs oi con gIn [] r q hnames hin hout hnb houtNC ?_ hs).1
+        intro i j a h1 h2 h3
+        have := role_index _ i j (hop.roles i j a h1 h2 h3)
+        rw [hidx] at this
+        exact this
       -- `standardOp` without given positions
-      have std0 : ∀ (con : Constraint) r q, con ≠ .sameAsInput →
+      have std0 : ∀ (con : Constraint) r q,
           standardOp env sg qsvs oi con [] [] = .ok (r, q) → OpReqs env.model sg oi.op oi.opId r := by
-        intro con r q hc hs
+        intro con r q hs
         exact (standardOp_opReqs env sg qsvs oi con [] [] r q hnames hin hout hnb houtNC
-          (fun h => absurd h hc) (fun i j a _ _ _ => by simp) hs).1
+          (fun i j a _ _ _ => by simp) hs).1
       by_cases c1 : (fn == "materialize_input" || fn == "materialize_output" || fn == "materialize_add" ||
           fn == "materialize_sub" || fn == "materialize_mul" || fn == "materialize_batch_matmul" ||
           fn == "materialize_gelu" || fn == "materialize_rsqrt") = true
       · rw [if_pos c1] at h
-        exact std0 _ _ _ (by decide) h
+        exact std0 _ _ _ h
       rw [if_neg c1] at h
       by_cases c2 : (fn == "materialize_embedding_lookup") = true
       · rw [if_pos c2] at h
-        exact std _ _ _ _ (T1.1 (eq_of_beq c2)) (fun hc => by cases hc) h
+        exact std _ _ _ _ (T1.1 (eq_of_beq c2)) h
       rw [if_neg c2] at h
       by_cases c3 : (fn == "materialize_mean") = true
       · rw [if_pos c3] at h
-        exact std _ _ _ _ (T1.2.1 (eq_of_beq c3)) (fun hc => by cases hc) h
+        exact std _ _ _ _ (T1.2.1 (eq_of_beq c3)) h
       rw [if_neg c3] at h
       by_cases c4 : (fn == "materialize_reshape" || fn == "materialize_transpose") = true
       · rw [if_pos c4] at h
         simp only [Bool.or_eq_true, beq_iff_eq] at c4
-        exact std _ _ _ _ (T1.2.2 c4).1 (fun _ => (T1.2.2 c4).2) h
+        exact std _ _ _ _ (T1.2.2 c4) h
       rw [if_neg c4] at h
       by_cases c5 : (fn == "materialize_average_pool_2d") = true
       · rw [if_pos c5] at h
-        exact std _ _ _ _ (T2.1 (eq_of_beq c5)).1 (fun _ => (T2.1 (eq_of_beq c5)).2) h
+        exact std _ _ _ _ (T2.1 (eq_of_beq c5)) h
       rw [if_neg c5] at h
       by_cases c6 : (fn == "materialize_strided_slice") = true
       · rw [if_pos c6] at h
-        exact std _ _ _ _ (T2.2.1 (eq_of_beq c6)).1 (fun _ => (T2.2.1 (eq_of_beq c6)).2) h
+        exact std _ _ _ _ (T2.2.1 (eq_of_beq c6)) h
       rw [if_neg c6] at h
       by_cases c7 : (fn == "materialize_split") = true
       · rw [if_pos c7] at h
-        exact std _ _ _ _ (T2.2.2 (eq_of_beq c7)).1 (fun _ => (T2.2.2 (eq_of_beq c7)).2) h
+        exact std _ _ _ _ (T2.2.2 (eq_of_beq c7)) h
       rw [if_neg c7] at h
       by_cases c8 : (fn == "materialize_concatenation") = true
       · rw [if_pos c8] at h
-        exact std0 _ _ _ (by decide) h
+        exact std0 _ _ _ h
       rw [if_neg c8] at h
       -- convolution-like operators: `standardOp` with the bias position given, then `biasFor`
       have conv : ∀ (gIn : List Nat) (iIn iB : Nat) r q r', indexSlots oi.opName ++ [iB] = gIn →
@@ -244,7 +239,6 @@ theorem materializeOp_reqs (env : Env) (sg : Subgraph) (qsvs : Qsvs) (oi : OpInf
         intro gIn iIn iB r q r' _ hnidx hbs hiff hs hb
         obtain ⟨hR, rin, rout, hsplit, hpos, hrout⟩ :=
           standardOp_opReqs env sg qsvs oi .none gIn [] r q hnames hin hout hnb houtNC
-            (fun hc => by cases hc)
             (fun i j a h1 h2 h3 => hiff i j (role_special _ i j (hop.roles i j a h1 h2 h3))) hs
         refine biasFor_reqs env sg oi r rin rout r' iIn 1 iB hnames hin hnb hR hsplit hpos hrout
           (hop.mandatory iB hbs).1 ?_ hb
